@@ -92,7 +92,7 @@ DoCreate(f, o, raw, raw2) ==
     ELSE IF nm = NONE THEN Out(EINVALARG, f)
     ELSE IF RefuseDotNames /\ nm \in {".", ".."} THEN Out(EINVALARG, f)
     ELSE
-    CASE o.kind \in {"file", "fifo"} -> LET r == Mknodat(f, pr.ino, nm, NEWINO, o.kind) IN Out(r.res, r.fs)
+    CASE o.kind \in {"file", "fifo", "chr", "blk"} -> LET r == Mknodat(f, pr.ino, nm, NEWINO, o.kind) IN Out(r.res, r.fs)
       [] o.kind = "dir"  -> LET r == Mkdirat(f, pr.ino, nm, NEWINO) IN Out(r.res, r.fs)
       [] o.kind = "lnk"  -> LET r == Symlinkat(f, pr.ino, nm, NEWINO, raw2) IN Out(r.res, r.fs)
       [] o.kind = "hard" ->
